@@ -357,7 +357,9 @@ func c04Run(c *Ctx) {
 	c04Inputs(c, c.Quick, func(in []byte) {
 		n++
 		for _, name := range decoderNames {
-			c04One(c, name, in, n%64 == 0)
+			// allocation is measured on every input for the packet and header decoders (a lying length field is
+			// their whole attack surface) and on every 8th input for the body decoders
+			c04One(c, name, in, name == "Packet" || name == "Header" || n%8 == 0)
 		}
 		c04Fields(c, in)
 		if n%5000 == 1 {
